@@ -1,7 +1,7 @@
 """API-level checks (C06 C07 C08 C12 C13 C14 C15): TLC model checking of spec/AsmApi.tla, replay of every printed
 transition on the real library (harness/apirun.c), seeded random histories, and validation of every recorded
 execution by TLC (spec/ApiTrace.tla)."""
-import zlib, json, os, re, random, subprocess, time, collections, shutil
+import stat, zlib, json, os, re, random, subprocess, time, collections, shutil
 import alverif as A
 
 LEVEL = "model_checking"
@@ -94,7 +94,9 @@ POOL = ["ret", "nop", "push rax", "clc", "nop2", "xor eax, eax", "push r8", "add
         "and qword [r8d+r9d*8+0x12345678], 0x1122334455667788", "add qword [eax+ecx*8+0x12345678], 0x1122334455667788", "test qword [r8d+r9d*8+0x12345678], 0x1122334455667788",
         # immediates equal to the value strtoul reports on overflow
         "add rax, -1", "mov rcx, 0xffffffffffffffff", "push -1", "and rdx, 0xffffffffffffffff", "mov rax, 18446744073709551615"]
-BADLINES = ["bogus rax", "mov [rax], [rbx]", "add rax, rxx", "lea rax, [rsp+rsp]"]
+BADLINES = ["bogus rax", "mov [rax], [rbx]", "add rax, rxx", "lea rax, [rsp+rsp]",
+            # lines whose first character lies between 'Z' and 'a' (the filter starts a mnemonic there): a label without its colon, a stray bracket
+            "_start", "[rax]", "^", "`x`", "]", "\\x"]
 OPTSENS = ["mov rax, 0x5", "mov rax, 0x0000000000000005", "lea rcx, [rax+rsp]", "lea rcx, [2*rax]", "mov rdx, 1234", "lea rcx, [4*rdx+0x10]",
            "add qword [rax+rsp], 5", "add qword [2*rax], 5", "mov dword [2*rcx], 100", "imul rax, [rbx+rsp], 10", "add qword [rax+rsp], 0x5", "cmp byte [8*rdx], 7",
            "lea rcx, [1*rax]", "mov rcx, [1*rdx]", "add qword [1*r12+0x10], 5", "lea rcx, [1*rax+0x10]", "push qword [r9+rsp]", "call [2*r9]", "vpxor ymm0, ymm1, [2*r9]",
@@ -116,12 +118,16 @@ class Lines:
         recs = [{"id": "L%08x" % zlib.crc32(t.encode()), "prop": "X", "status": "Unconstrained", "text": t} for t in POOL + BADLINES + OPTSENS]
         ev = A.run_lines(recs, ctx="solo0", modes="plain")
         self.codes, self.text, self.bylen, self.bad, self.sens = {}, {}, collections.defaultdict(list), [], []
+        self.faults = []
         for e in ev:
             per = [None] * 12
             for r in e["runs"]:
                 for o in r["o"]:
                     per[o] = r["bytes"] if r["ret"] == 0 else []
-            if any(p is None for p in per) or "fault" in e:
+            if "fault" in e:
+                self.faults.append(e["text"])      # assembling this line alone crashed or hung: reported by finish() as a C09 violation
+                continue
+            if any(p is None for p in per):
                 continue
             self.codes[e["id"]] = per
             self.text[e["id"]] = e["text"]
@@ -267,6 +273,11 @@ class Script:
     def binfile(self, i, path, expectfail=False):
         self.lines.append("B %d %s" % (i, hx(path)))
         self.meta.append({"expectfail": True} if expectfail else {})
+
+    def blockgrow(self, i):
+        """the next growth of this library-managed buffer has to move it (the pages behind it are taken)"""
+        self.lines.append("Q %d" % i)
+        self.meta.append({})
 
     def dropuid(self):
         self.lines.append("J")
@@ -785,7 +796,10 @@ def finish(prop, tier, t0, results, L, stats_all, viol_model, replay, extra_cov=
             print("  (+%d more executions with %s)" % (n - 3, r))
     for r, n in drift.items():
         print("MODEL-DRIFT: %s (%d events): the code no longer follows the mechanism model although no property predicate failed" % (r, n))
-    nviol = len(viol) + len(viol_model)
+    for text in getattr(L, "faults", []):
+        path = A.write_replay(prop, "poolfault-%08x" % zlib.crc32(text.encode()), {"property": "C09", "reason": "fault", "sid": "pool", "script": [], "meta": [], "text": text})
+        print("VIOLATION property=C09 replay=%s  (fault while the pool line %r is assembled alone)" % (path, text[:60]))
+    nviol = len(viol) + len(viol_model) + len(getattr(L, "faults", []))
     wall = time.time() - t0
     accepted = len(results) - len({sid for sid, _, _ in bad})
     samples = []
@@ -1072,6 +1086,27 @@ def c13_boundary(L, rnd, tier):
                 sc.offset(1, off)
                 sc.asm(1, [k10, k11, k10], [L.text[k10], L.text[k11], L.text[k10]])
                 out.append(sc)
+        # an instruction that has to be padded starts below a growth threshold and lands above it (the room check behind the padding grows
+        # the buffer; with the pages behind it taken the growth MOVES it): chunk sizes that do not divide 6000, every residue of the start
+        k1 = L.bylen[1][0]
+        kk = [L.bylen[3][0], (L.bylen.get(7) or L.bylen[3])[0], (L.bylen.get(5) or L.bylen[3])[0]]
+        for c in (7, 9, 11, 13, 17, 48):
+            for d in range(0, c if tier == "thorough" else min(c, 7)):
+                for blocked in (True, False):
+                    if tier == "quick" and not blocked and d % 2:
+                        continue
+                    start = 6000 - d
+                    body = [k11] * (start // 11) + [k1] * (start % 11)
+                    sc = Script("C13-t%d" % n); n += 1
+                    sc.create(1, "int", 0)
+                    if blocked:
+                        sc.blockgrow(1)
+                    sc.chunk(1, c)
+                    tail = [kk[d % 3], kk[(d + 1) % 3], k1, kk[(d + 2) % 3]]
+                    keys = body + tail
+                    sc.asm(1, keys, [L.text[x] for x in keys], eol="\n")
+                    sc.asm(1, tail, [L.text[x] for x in tail])
+                    out.append(sc)
     return out
 
 
@@ -1214,7 +1249,8 @@ def c15_directed(L, rnd, tier):
             sc.asm(1, [k7, k1, k7], [L.text[k7], L.text[k1], L.text[k7]], twin=True)
             out.append(sc)
     for c in cs:
-        for hist in ("off-on", "off1-call-on", "other-size", "count-ok", "count-fail", "count-null", "count-same", "debug", "opt-roundtrip", "set-again", "fail-then"):
+        for hist in ("off-on", "off1-call-on", "other-size", "count-ok", "count-fail", "count-null", "count-same", "debug", "opt-roundtrip", "set-again", "fail-then",
+                     "off-count", "off1-count-fail"):
             for ln_key in (k3, k7):
                 ln = len(L.codes[ln_key][0])
                 if ln >= c:
@@ -1245,6 +1281,11 @@ def c15_directed(L, rnd, tier):
                     sc.chunk(1, c)
                 elif hist == "fail-then":
                     sc.asm(1, [k3, bad, k3], [L.text[k3], L.text[bad], L.text[k3]])
+                elif hist == "off-count":
+                    # fitting switched off again, then a counting call: the final call is plain assembly (nothing is padded)
+                    sc.chunk(1, 0); sc.asm(1, [k7, k3], [L.text[k7], L.text[k3]], count=c2)
+                elif hist == "off1-count-fail":
+                    sc.chunk(1, 1); sc.asm(1, [k7, bad], [L.text[k7], L.text[bad]], count=c)
                 for free in (1, ln - 1):
                     pos = 3 * c - free
                     sc.offset(1, pos)
@@ -1273,6 +1314,19 @@ def c07_boundary(L, rnd, tier):
     """chunk fitting next to the end of a caller buffer: every instruction length x padding length (1 .. the longest, i.e. more
     than one NOP) with the write position within a few bytes of the 20-byte reserve, on buffers whose end lies right behind"""
     out, n = [], 0
+    # every rejected line of the pool (unknown mnemonics, a first character between 'Z' and 'a', bad operands) in the middle of a program,
+    # in every mode, on buffers that end right behind: a rejected line writes nothing at all
+    k3 = L.bylen[3][0]
+    for bk in L.bad:
+        for cap in (24, 40, 64):
+            for mode in ("plain", "fit", "count"):
+                sc = Script("C07-r%d" % n); n += 1
+                sc.create(1, "ext", cap)
+                if mode == "fit":
+                    sc.chunk(1, 16)
+                sc.asm(1, [k3, bk, k3], [L.text[k3], L.text[bk], L.text[k3]], count=(8 if mode == "count" else None))
+                sc.asm(1, [k3], [L.text[k3]])
+                out.append(sc)
     lens = [x for x in sorted(L.bylen) if x >= 2]
     deltas = range(-3, 4) if tier == "thorough" else (-2, 0, 1, 2)
     for ln in lens:
@@ -1453,6 +1507,20 @@ def c19_scripts(L, rnd, tier):
             sc.asm_file(1, [], fempty, count=cnt, twin=False)
             sc.asm(1, [L.bylen[3][0]], [L.text[L.bylen[3][0]]])
             out.append(sc)
+    # a readable file that is no regular file and has no contents (a null device made for the purpose; skipped where mknod is not permitted)
+    nulldev = os.path.join(d, "nulldev")
+    try:
+        if not os.path.exists(nulldev):
+            os.mknod(nulldev, 0o666 | stat.S_IFCHR, os.makedev(1, 3))
+        for cnt in (None, 1, 8):
+            sc = Script("C19-chr%d" % n); n += 1
+            sc.create(1, "ext", 200)
+            sc.asm(1, [L.bylen[3][0]], [L.text[L.bylen[3][0]]])
+            sc.asm_file(1, [], nulldev, count=cnt)
+            sc.asm(1, [L.bylen[3][0]], [L.text[L.bylen[3][0]]])
+            out.append(sc)
+    except OSError:
+        pass
     # start offsets at the end of the capacity: within the last 20 bytes of a library-managed buffer (fresh and grown) it grows, on a caller
     # buffer a file without instructions needs no room
     k3 = L.bylen[3][0]
